@@ -96,7 +96,7 @@ def _impl_check(sc, runs, tag, oc, hc):
     for f in ('Conn.tla', 'TraceConnImpl.tla'):
         shutil.copy(os.path.join(vlib.SPEC, f), wd)
     open(os.path.join(wd, 'TraceConnImpl.cfg'), 'w').write(
-        'SPECIFICATION TSpec\nPOSTCONDITION Report\nCHECK_DEADLOCK FALSE\nCONSTANTS\n  MaxTasks = 8\n  MaxSend = 8\n  WithCloser = TRUE\n  WithOnConnect = %s\n  HandlerCloses = %s\n'
+        'SPECIFICATION TSpec\nPOSTCONDITION Report\nCHECK_DEADLOCK FALSE\nCONSTANTS\n  MaxTasks = 8\n  MaxSend = 8\n  WithCloser = TRUE\n  WithOnConnect = %s\n  WithOnDisconnect = TRUE\n  HandlerCloses = %s\n'
         '  Dev_NoConnRecheck = FALSE\n  Dev_NoInputRecheck = FALSE\n  Dev_NoHupTask = FALSE\n  Dev_HupLockTwice = FALSE\n' % (str(oc).upper(), str(hc).upper()))
     blank = {'g': '', 'i': 0, 'pt': 0, 'k': 0, 'closer': 0, 'closing': 0, 'connecting': 0, 'processing': 0, 'st': 0, 'inlen': 0, 'opst': 1, 'det': 0}
     n = 0
